@@ -20,11 +20,11 @@ open RedisEmu
 
 def Quirks.current : Quirks :=
   { Quirks.none with
-    queueErrorNoAbort := true,      -- D24
-    inplaceKeepsVersion := true,    -- D27 / D28
-    rawLookupSeesExpired := true,   -- D22
-    flushDetaches := true,          -- D42
-    lcsRunes := true }              -- D68
+    queueErrorNoAbort := false,     -- D24
+    inplaceKeepsVersion := false,    -- D27 / D28
+    rawLookupSeesExpired := false,  -- D22
+    flushDetaches := false,         -- D42
+    lcsRunes := false }             -- D68
 
 def words (s : String) : List String := (s.splitOn " ").filter (· ≠ "")
 
